@@ -10,6 +10,9 @@ package server
 // leases and the header-level accept/reject code all run.
 
 import (
+	"net/http/httptest"
+	"net/http"
+	"encoding/base64"
 	"bytes"
 	"context"
 	"encoding/binary"
@@ -170,6 +173,8 @@ const (
 	vkPathInline    vkPath = "inline+replay"  // ServeRawInline, then ServeRawReplay if handed off (UDP reader fast path)
 	vkPathDecoded   vkPath = "decoded"        // ServeRaw on a transport without strict slots: decoded entry, direct pack
 	vkPathServeMsg  vkPath = "servemsg"       // ServeMsg (decoded message API, no byte-sink capability)
+	vkPathDoHPost   vkPath = "doh-post"       // the real Server.ServeHTTP: RFC 8484 POST application/dns-message
+	vkPathDoHGet    vkPath = "doh-get"        // the real Server.ServeHTTP: RFC 8484 GET ?dns=<base64url>
 )
 
 // vkPlain is an owned-transport look-alike WITHOUT strict slots: the decoded entry.
@@ -226,6 +231,20 @@ func (w *vkSrvWorld) serve(path vkPath, proto string, client netip.AddrPort, raw
 	res := vkResult{}
 	now := time.Now()
 	switch {
+	case path == vkPathDoHPost || path == vkPathDoHGet:
+		var hr *http.Request
+		if path == vkPathDoHPost {
+			hr = httptest.NewRequest(http.MethodPost, "https://doh.test/dns-query", bytes.NewReader(raw))
+			hr.Header.Set("Content-Type", "application/dns-message")
+		} else {
+			hr = httptest.NewRequest(http.MethodGet, "https://doh.test/dns-query?dns="+base64.RawURLEncoding.EncodeToString(raw), nil)
+		}
+		hr.RemoteAddr = client.String()
+		rec := httptest.NewRecorder()
+		w.s.ServeHTTP(rec, hr)
+		if rec.Code == http.StatusOK && rec.Header().Get("Content-Type") == "application/dns-message" {
+			res.replies = [][]byte{append([]byte(nil), rec.Body.Bytes()...)}
+		}
 	case path == vkPathServeMsg:
 		m := new(dns.Msg)
 		if err := m.Unpack(raw); err != nil {
